@@ -168,3 +168,176 @@ def length_ranges(rng, top=100, max_pieces=3, factors=(1, 2, 0.5, 1.5, 1.25, 3))
         ranges.append([lo, c]); lo = c + 1
     ranges.append([lo, top])
     return ranges, [rng.choice(factors) for _ in ranges]
+
+
+def digraph_cyc(rng, max_nodes=6, valid=True):
+    """digraph with cycles for the walk models: `digraph_scc` plus parallel exits out of / entries into
+    the SCC shapes, extra sources and sinks, and additional starts / ends.
+
+    returns (nodes, edges, starts, ends, tags); when `valid`, `starts` / `ends` are completed so that the
+    requirement of `stDiGraph._post_build` holds (at least one node without in-edges or an additional
+    start, and at least one node without out-edges or an additional end; note that a self-loop counts
+    as an in-edge and as an out-edge)."""
+    nodes, edges = digraph_scc(rng, max_nodes=max_nodes)
+    nodes, edges = list(nodes), list(edges)
+    tags = set()
+    es = set(edges)
+
+    def add(u, v):
+        if (u, v) not in es:
+            es.add((u, v)); edges.append((u, v))
+            for x in (u, v):
+                if x not in nodes:
+                    nodes.append(x)
+            return True
+        return False
+
+    cyc_nodes = [v for v in nodes if v.endswith("_c") or v.endswith("_c1") or v.endswith("_c2")]
+    if any((v, v) in es for v in nodes):
+        tags.add("self_loop")
+    if any(v.endswith("_c") for v in nodes):
+        tags.add("two_cycle")
+    if any(v.endswith("_c1") for v in nodes):
+        tags.add("nested_cycles")
+    # parallel exits / entries of an SCC shape: the satellite node of a cycle gets its own edge to a
+    # successor (from a predecessor) of the cycle's skeleton node, or to (from) a fresh sink (source)
+    for w in cyc_nodes:
+        v = w.rsplit("_", 1)[0]
+        r = rng.random()
+        if r < 0.3:
+            outs = [y for (x, y) in edges if x == v and y != v and not y.startswith(v + "_c")]
+            if outs and rng.random() < 0.7:
+                if add(w, rng.choice(outs)):
+                    tags.add("parallel_scc_exit")
+            else:
+                if add(w, w + "_out"):
+                    tags.add("scc_exit_to_new_sink")
+        elif r < 0.45:
+            ins = [x for (x, y) in edges if y == v and x != v and not x.startswith(v + "_c")]
+            if ins:
+                if add(rng.choice(ins), w):
+                    tags.add("parallel_scc_entry")
+            else:
+                if add(w + "_in", w):
+                    tags.add("scc_entry_from_new_source")
+    # several sources / sinks
+    if rng.random() < 0.3:
+        add("src2", rng.choice(nodes)); tags.add("extra_source")
+    if rng.random() < 0.3:
+        add(rng.choice([x for x in nodes if x != "src2"]), "snk2"); tags.add("extra_sink")
+    indeg = {v: 0 for v in nodes}; outdeg = {v: 0 for v in nodes}
+    for u, v in edges:
+        outdeg[u] += 1; indeg[v] += 1
+    starts, ends = [], []
+    if rng.random() < 0.3:
+        starts = rng.sample(nodes, rng.randint(1, min(2, len(nodes))))
+    if rng.random() < 0.3:
+        ends = rng.sample(nodes, rng.randint(1, min(2, len(nodes))))
+    if valid:
+        if not starts and not any(indeg[v] == 0 for v in nodes):
+            starts = [rng.choice(nodes)]; tags.add("start_required")
+        if not ends and not any(outdeg[v] == 0 for v in nodes):
+            ends = [rng.choice(nodes)]; tags.add("end_required")
+    if valid and rng.random() < 0.85:
+        # connect: every node reachable from a start and reaching an end (greedy additions)
+        def closure(seed, fwd):
+            seen = set(seed); stack = list(seed)
+            while stack:
+                x = stack.pop()
+                for (a, b) in edges:
+                    y = b if fwd and a == x else (a if (not fwd) and b == x else None)
+                    if y is not None and y not in seen:
+                        seen.add(y); stack.append(y)
+            return seen
+        for fwd in (True, False):
+            lst = starts if fwd else ends
+            deg = indeg if fwd else outdeg
+            guard = 0
+            while guard < 10:
+                guard += 1
+                R = closure([v for v in nodes if deg[v] == 0 or v in lst], fwd)
+                miss = [v for v in nodes if v not in R]
+                if not miss:
+                    break
+                best = max(miss, key=lambda v: len(closure([v], fwd) - R))
+                lst.append(best)
+                tags.add("start_added_for_reachability" if fwd else "end_added_for_reachability")
+    if starts:
+        tags.add("additional_starts")
+    if ends:
+        tags.add("additional_ends")
+    if sum(1 for v in nodes if indeg[v] == 0 or v in starts) > 1:
+        tags.add("several_sources")
+    if sum(1 for v in nodes if outdeg[v] == 0 or v in ends) > 1:
+        tags.add("several_sinks")
+    order = list(nodes)
+    rng.shuffle(order)
+    return order, edges, starts, ends, sorted(tags)
+
+
+def walk_flow_cyc(rng, nodes, edges, starts, ends, weights=(1, 2, 3), wtype=int, nwalks=None, cover=True):
+    """conserving flow (w.r.t. the augmented graph) as a superposition of weighted random walks from a
+    start (node without in-edges or additional start) to an end (node without out-edges or additional
+    end); edges on no such walk keep flow 0. returns (flow dict, walks, weights)"""
+    succ = {v: [] for v in nodes}
+    indeg = {v: 0 for v in nodes}
+    for u, v in edges:
+        succ[u].append(v); indeg[v] += 1
+    E = {v for v in nodes if not succ[v] or v in ends}
+    # distance to the nearest end (reverse BFS); walks start only where an end is reachable
+    dist = {v: 0 for v in E}
+    frontier = list(E)
+    while frontier:
+        nxt = []
+        for y in frontier:
+            for (a, b) in edges:
+                if b == y and a not in dist:
+                    dist[a] = dist[y] + 1; nxt.append(a)
+        frontier = nxt
+    S = [v for v in nodes if (indeg[v] == 0 or v in starts) and v in dist]
+    f = {e: wtype(0) for e in edges}
+    left = set(edges)
+    walks, ws = [], []
+    target = nwalks if nwalks is not None else rng.randint(1, 4)
+    tries = 0
+    while S and tries < 60 and (len(walks) < target or (cover and left and len(walks) < 7)):
+        tries += 1
+        v = rng.choice(S); used = []; steps = 0
+        while steps < 24:
+            if v in E and (not succ[v] or rng.random() < 0.35):
+                break
+            cand = [x for x in succ[v] if x in dist]
+            if not cand:
+                break
+            if steps >= 8:                              # head for the nearest end
+                x = min(cand, key=lambda y: dist[y])
+            else:
+                pref = [x for x in cand if (v, x) in left]
+                x = rng.choice(pref) if pref and rng.random() < 0.8 else rng.choice(cand)
+            used.append((v, x)); v = x; steps += 1
+        if v in E and used:
+            w = wtype(rng.choice(weights))
+            for e in used:
+                f[e] += w
+            left -= set(used)
+            walks.append(used); ws.append(w)
+    return f, walks, ws
+
+
+def subset_constraints_cyc(rng, edges, walks=(), n=None):
+    """subset constraints for the walk models: lists of edges (sets semantically) with duplicates inside a
+    constraint and overlaps between constraints"""
+    out = []
+    for _ in range(n if n is not None else rng.randint(1, 3)):
+        if walks and rng.random() < 0.5:
+            pool = list(rng.choice(list(walks)))
+        else:
+            pool = list(edges)
+        m = rng.randint(1, min(3, len(pool)))
+        c = [rng.choice(pool) for _ in range(m)]       # sampling with replacement: duplicates happen
+        if rng.random() < 0.25:
+            c.append(c[0])
+        if out and rng.random() < 0.4:
+            c.append(rng.choice(out[-1]))              # overlap with the previous constraint
+        out.append(c)
+    return out
